@@ -196,8 +196,10 @@ const NAMES: [&str; 20] = [
 /// Unusual but legal file-name characters (on Unix `\\` is an ordinary character).  Glob metacharacters
 /// (`*`, `?`, `[`, `]`) are left out: the code pastes the listed directory into a glob pattern, and the
 /// property's domain excludes them (DESIGN §6 C13 "!").
-const ODD_NAMES: [&str; 14] = [
+const ODD_NAMES: [&str; 22] = [
     "a\\b.bin", "b.bin", "d\\e", "\\", "x\\", "#h", "100%", "a+b", "it's", "-dash", "ｳﾏ.txt", "日本", "~t", "a,b;c",
+    // code points whose low byte looks like a special ASCII byte (newline, backslash, NUL, 'n', '*')
+    "上.txt", "乜", "一", "乮.bin", "Ċ", "Ā.lz", "《x》", "＊",
 ];
 const EXTS: [&str; 8] = ["txt", "lz", "bin", "cms", "cmp", "TXT", "Txt", "LZ"];
 /// Names that differ only in letter case (`glob::glob` matches case-sensitively; so must listings).
@@ -887,6 +889,75 @@ fn long_name_case(rng: &mut Rng, id: &str, g: &str, lang: &str) -> Vec<String> {
     l
 }
 
+/// A tiny world for order / de-duplication flaws of the union: `masks[k]` says which names of `pool`
+/// layer `k` holds — as files `d/<name>` and as directories `s/<name>`; the directory is listed once
+/// (entries, immediate children, sub-directories).  Minimal codec table (one payload).
+fn subset_world(id: &str, g: &str, lang: &str, pool: &[&str], masks: &[usize], loc: &str) -> Vec<String> {
+    let s0 = vec![b"x".to_vec()];
+    let trees: Vec<Vec<(String, Ent)>> = masks
+        .iter()
+        .map(|m| {
+            let mut w = Vec::new();
+            for (i, n) in pool.iter().enumerate() {
+                if m & (1 << i) != 0 {
+                    w.push((format!("d/{}", n), Ent::File(0)));
+                    w.push((format!("s/{}", n), Ent::Dir));
+                }
+            }
+            build_tree(&w)
+        })
+        .collect();
+    let mut l = vec![new_line(id, g, lang, &s0, &[None, None, None, None], &trees)];
+    l.push(format!("{} list {} ~ {}", id, hexs("d"), loc));
+    l.push(format!("{} subdirs {} {}", id, hexs("s"), loc));
+    l.push(format!("{} list {} {} {}", id, hexs("s"), hexs("*"), loc));
+    l
+}
+
+/// Exact counts: a directory holding exactly `c` entries (spread over two layers, some in both, every
+/// fifth a directory), listed once; one tiny world per count.
+fn count_world(id: &str, g: &str, lang: &str, c: usize) -> Vec<String> {
+    let s0 = vec![b"x".to_vec()];
+    let mut low = vec![("c".to_string(), Ent::Dir)];
+    let mut top = Vec::new();
+    for i in 0..c {
+        let e = (format!("c/e{:03}", i), if i % 5 == 0 { Ent::Dir } else { Ent::File(0) });
+        if i % 3 != 0 {
+            low.push(e.clone());
+        }
+        if i % 3 != 1 {
+            top.push(e);
+        }
+    }
+    let trees = vec![build_tree(&low), build_tree(&top)];
+    let mut l = vec![new_line(id, g, lang, &s0, &[None, None, None, None], &trees)];
+    l.push(format!("{} list {} ~ 0", id, hexs("c")));
+    l.push(format!("{} subdirs {} 0", id, hexs("c")));
+    l
+}
+
+/// Exact lengths: file names of every length 1..130 bytes in one directory (ASCII, and with a three-byte
+/// character at the end), spread over two layers.
+fn length_count_case(rng: &mut Rng, id: &str, g: &str, lang: &str) -> Vec<String> {
+    let s0 = vec![b"x".to_vec()];
+    let mut low = Vec::new();
+    let mut top = Vec::new();
+    for len in 1..=130usize {
+        let name = if len % 3 == 0 && len >= 3 { format!("{}上", "k".repeat(len - 3)) } else { "n".repeat(len) };
+        if len % 2 == 0 {
+            low.push((format!("w/{}", name), Ent::File(0)));
+        } else {
+            top.push((format!("w/{}", name), Ent::File(0)));
+        }
+    }
+    let trees = vec![build_tree(&low), build_tree(&top)];
+    let mut l = vec![new_line(id, g, lang, &s0, &[None, None, None, None], &trees)];
+    l.push(format!("{} list {} ~ 0", id, hexs("w")));
+    l.push(format!("{} list {} {} 0", id, hexs("w"), hexs("*")));
+    let _ = rng;
+    l
+}
+
 /// The POSIX / std behaviours the model fixes (DESIGN §6 C12 modelling notes), each determined by
 /// experiment against the real code; also kept as corpus cases `corpus/C12/posix-*.case`.
 fn posix_cases(rng: &mut Rng, id_q: &str, id_w: &str) -> Vec<String> {
@@ -966,6 +1037,44 @@ pub fn gen(seed: u64, tier: &str) -> Vec<String> {
     for (g, lang) in [("FE14", "EnglishNA"), ("FE10", "EnglishEU")] {
         let id = next_id(&mut n);
         lines.extend(listing_case(&mut rng, &id, g, lang));
+    }
+    // B0. unions over 3-5 layers: every assignment of the pool {a, m, z} to three layers (8^3 tiny worlds),
+    //     and random subsets of a 5-8 name pool over 3, 4 and 5 layers (incl. empty layers and singletons)
+    let prop0 = std::env::var("VERIF_PROP").unwrap_or_default();
+    for code in 0..512usize {
+        // C13 is the home of this sweep; C12 and C14 take a rotating quarter in quick
+        if !thorough && (prop0 == "C12" || prop0 == "C14") && code % 4 != (seed as usize) % 4 {
+            continue;
+        }
+        let id = next_id(&mut n);
+        lines.extend(subset_world(&id, "FE14", "EnglishNA", &["a", "m", "z"], &[code & 7, (code >> 3) & 7, (code >> 6) & 7], "0"));
+    }
+    {
+        let big_pool = ["a", "c", "m", "q", "z", "B", "m.txt", "é"];
+        let worlds = if thorough { 1500 } else if prop0 == "C12" || prop0 == "C14" { 30 } else { 90 };
+        for w in 0..worlds {
+            let k = 3 + w % 3;
+            let pn = 5 + (rng.below(4) as usize);
+            let masks: Vec<usize> = (0..k)
+                .map(|_| match rng.below(6) {
+                    0 => 0,
+                    1 => 1 << rng.below(pn as u64),
+                    _ => (rng.below(1 << pn)) as usize,
+                })
+                .collect();
+            let g = GAMES[w % 5];
+            let loc = if rng.chance(1, 4) { "1" } else { "0" };
+            let id = next_id(&mut n);
+            lines.extend(subset_world(&id, g, "EnglishNA", &big_pool[..pn], &masks, loc));
+        }
+    }
+    {
+        let id = next_id(&mut n);
+        lines.extend(length_count_case(&mut rng, &id, "FE14", "EnglishNA"));
+        for c in [0usize, 1, 2, 7, 8, 9, 15, 16, 17, 31, 32, 33, 63, 64, 65, 127, 128, 129] {
+            let id = next_id(&mut n);
+            lines.extend(count_world(&id, "FE14", "EnglishNA", c));
+        }
     }
     // B1. components at the 255-byte limit
     for (g, lang) in [("FE14", "EnglishNA"), ("FE10", "EnglishNA")] {
